@@ -164,6 +164,31 @@ def path(c, job):
                     if lo <= law <= hi:
                         c.prove("C17.law datasheet-power-law-inside-range", r1 == law)
             return
+        if kind == "flicker":
+            # the line changes while getDistance() runs: however often the driver samples it inside one call, the
+            # result is a finite distance inside the documented range (concrete scripts, real math)
+            ds.math = math
+            s = _mk(model, env)
+            bad = []
+            for script in ((1.0, -1.0), (1.0, 0.0), (0.5, 5e-324), (2.0, -0.05), (0.3, 1e-7), (3.0, 1e-300), (1e-4, -3.0), (1.0, 1.0)):
+                reads = [0]
+
+                def src(ai, script=script, reads=reads):
+                    v = script[min(reads[0], len(script) - 1)]
+                    reads[0] += 1
+                    return v
+
+                env.analog_voltage = env.analog_avg_voltage = src
+                try:
+                    d = s.getDistance()
+                    ok = isinstance(d, (int, float)) and d == d and lo - 1e-9 <= d <= hi + 1e-9
+                except Exception as e:
+                    d, ok = repr(e)[:60], False
+                if not ok:
+                    bad.append((script, d))
+            c.reach("flicker")
+            c.prove("C17.range reading-in-range-while-the-line-changes", not bad, info=dict(bad=bad[:3]))
+            return
         if kind == "history":
             # the same sensor object read several times: every reading depends on the current voltage only
             s = _mk(model, env)
@@ -266,7 +291,7 @@ class C17(Spec):
     outside = ["accuracy of libm pow", "NaN input voltage", "the 4096 ADC codes as concrete doubles (a floating-point question no installed solver settles with a transcendental function)"]
 
     def jobs(self, tier):
-        j = [dict(model=m, kind=k) for m in MODELS for k in ("mono", "sim", "inf", "history", "sim2")]
+        j = [dict(model=m, kind=k) for m in MODELS for k in ("mono", "sim", "inf", "history", "sim2", "flicker")]
         if tier != "quick":
             j += [dict(model=m, kind="history", reads=4) for m in MODELS]
         return j
@@ -275,7 +300,7 @@ class C17(Spec):
         return dict(voltage="every real in [-1000,1000] (symbolic) plus +-inf, 0, tiny, huge (concrete)", distance="every real in [-1000,1000]", models=list(MODELS))
 
     def reach_required(self, tier):
-        return ["mono", "sim", "special-values", "sim-symbolic-inside", "sim-clamped-concrete", "history", "sim2"]
+        return ["mono", "sim", "special-values", "sim-symbolic-inside", "sim-clamped-concrete", "history", "sim2", "flicker"]
 
     def path_fn(self, c, job):
         path(c, job)
